@@ -441,4 +441,8 @@ package dag
 
 //@ func (*xorTreeRepair).checkPage
 //@   prop C08
+// The cursor moves to the next page and starts over only after a page that ends beyond the highest clock:
+// the page that holds the highest clock itself is always visited before the cursor wraps.
+//@   ensures [cursor-wraps-only-past-the-highest-clock] old(f.circuitState) >= circuitRed ==>
+//@        ( old(f.currentPage)*PageSize + PageSize > ret(call (*atomic.Uint32).Load #1) ? f.currentPage == 0 : f.currentPage == old(f.currentPage) + 1 )
 //@   requires f.state != nil && f.state.graph != nil && f.state.xorTree != nil && !isNilIface(f.state.graph.db)
